@@ -9,9 +9,14 @@ Driver for the Nyquist family (C13).  Lines (after the family token `nyq`):
 * `contour <r> <npts> <dir> <np> (re im){np} <nom> om{nom}` — s-plane contour decisions:
   `ok <n> (w U | w R q dx | w L q dx){n}` or `err <Err>`.
 * `pz <ctime:0|1> <dir> <count> <np> (re im){np} <ncl> (re im){ncl}` — `ok <P> <Z> <0|1>`.
+* `grid <cfg> <nl> log{nl} <ni> interesting{ni}` — exponents of the logarithmic default grid that `nyquist_response`
+  asks for (`feature_periphery_decades=2` forwarded; `cfg` = the configured default periphery): `ok <lsp_min> <lsp_max>`.
+* `omega <npts> <N | nyq> <n> om{n}` — `omega_sys` before points are inserted near poles (linspace from 0 to the
+  first grid point; discrete time: cut below the Nyquist frequency, which is appended): `ok <n> w{n}` or `err <Err>`.
 -/
 import CtrlVerif.Driver.Util
 import CtrlVerif.Model.Nyquist
+import CtrlVerif.Model.NyquistGrid
 import Mathlib.Data.Rat.Floor
 
 namespace CtrlVerif.Driver.Nyquist
@@ -79,12 +84,33 @@ def hPZ : P String := do
   let Zn := countZ (ct == 1) cl
   pure s!"ok {Pn} {Zn} {if criterionOK Zn cnt Pn then 1 else 0}"
 
+def hGrid : P String := do
+  let cfg ← pRat
+  let logs ← pList pRat
+  let interesting ← pList pRat
+  let e := nyquistExponents cfg logs interesting
+  pure s!"ok {showRat e.1} {showRat e.2}"
+
+def hOmega : P String := do
+  let npts ← pNat
+  let t ← tok
+  let nyq : Option Q ← if t == "N" then pure none else
+    match parseRat t with
+    | some q => pure (some q)
+    | none => throw s!"rat:{t}"
+  let om ← pList pRat
+  match defaultOmega npts nyq om with
+  | .error e => pure (showErr e)
+  | .ok l => pure ("ok " ++ showRats l)
+
 def handle (toks : List String) : String :=
   match toks with
   | "count" :: rest => runLine hCount rest
   | "unwrap" :: rest => runLine hUnwrap rest
   | "contour" :: rest => runLine hContour rest
   | "pz" :: rest => runLine hPZ rest
+  | "grid" :: rest => runLine hGrid rest
+  | "omega" :: rest => runLine hOmega rest
   | op :: _ => s!"bad-op nyq:{op}"
   | [] => "bad-op nyq:empty"
 
